@@ -27,6 +27,57 @@ type c18Case struct {
 	// Heartbeat: instead of a race, one event whose frame is held back on the wire (between header and payload)
 	// for longer than the heartbeat period: the keep-alive must wait for the frame to be complete
 	Heartbeat bool `json:"heartbeat_during_a_stalled_write,omitempty"`
+	// StopBusy: stop arrives while Listen is in the middle of writing a frame (held back on the wire for 300 ms)
+	StopBusy bool `json:"stop_while_listener_is_writing,omitempty"`
+}
+
+// runStopBusy: the stop must still take effect once the write is through: upstream connection closed, goroutines gone
+func runStopBusy(c c18Case) string {
+	w := subWorld(c.WorldSeed)
+	r, err := NewRig(w, RigConfig{Subs: true, StallMs: 300})
+	if err != nil || r.Merged.Subscription == nil {
+		return "skip: no subscriptions in this world"
+	}
+	defer r.Close()
+	rng := hx.NewRand(c.WorldSeed + 7)
+	cl, err := fake.DialGateway(r.GWSrv.URL)
+	if err != nil {
+		return "cannot connect: " + err.Error()
+	}
+	defer cl.Drop()
+	cl.Send(map[string]interface{}{"type": requests.SubConnectionInit})
+	if f, ok := cl.Next(3 * time.Second); !ok || f.Msg["type"] != requests.SubConnectionAck {
+		return fmt.Sprintf("no connection_ack: %+v", f)
+	}
+	op, field, ok := simpleSubOp(w, r, rng)
+	if !ok {
+		return "skip: no owner"
+	}
+	payload := map[string]interface{}{"query": op.Query}
+	if op.Variables != nil {
+		payload["variables"] = op.Variables
+	}
+	if op.OperationName != "" {
+		payload["operationName"] = op.OperationName
+	}
+	id := "a-subscription-with-a-long-identifier-so-that-the-frame-is-long"
+	cl.Send(map[string]interface{}{"type": requests.SubStart, "id": id, "payload": payload})
+	up := r.Ups[w.SubOwner[field]].Accept(3 * time.Second)
+	if up == nil {
+		return "subscription not started upstream: " + op.Query
+	}
+	owner := r.Services[w.SubOwner[field]]
+	data, errs, _ := owner.Answer(up.Start, 0)
+	if errs != nil {
+		return "skip: owner rejects"
+	}
+	up.Data(data, nil)
+	time.Sleep(60 * time.Millisecond) // Listen is now inside the held-back write
+	cl.Send(map[string]interface{}{"type": requests.SubStop, "id": id})
+	if !up.WaitClosed(3 * time.Second) {
+		return "a stop that arrived while the listener was writing a frame never took effect: the upstream connection is still open after 3s"
+	}
+	return ""
 }
 
 // runHeartbeat: every frame the client reads must be one whole message, a data frame and at least one ka among them
@@ -314,6 +365,9 @@ func driveC18(seed int64, tier, out, replay string) {
 		for i := 0; i < hb; i++ {
 			cases = append(cases, c18Case{WorldSeed: rng.Int63(), Subs: 1, Heartbeat: true, Repeat: 1})
 		}
+		for i := 0; i < 3*hb; i++ {
+			cases = append(cases, c18Case{WorldSeed: rng.Int63(), Subs: 1, StopBusy: true, Repeat: 1})
+		}
 	}
 	var coq []string
 	for i, c := range cases {
@@ -325,6 +379,9 @@ func driveC18(seed int64, tier, out, replay string) {
 		if c.Heartbeat {
 			what = runHeartbeat(c)
 			obs.Count("heartbeat_during_stalled_write")
+		} else if c.StopBusy {
+			what = runStopBusy(c)
+			obs.Count("stop_while_listener_is_writing")
 		} else {
 			what = runC18(c, obs, &traces)
 		}
